@@ -115,7 +115,8 @@ def ensure_facts(cfgs, repo=None, log=None):
     h, nfiles = source_hash(repo)
     base = os.path.join(CACHE, 'facts', h)
     os.makedirs(base, exist_ok=True)
-    lock_path = os.path.join(CACHE, 'extract.lock')
+    slot = os.environ.get('DC_TARGET_SLOT', '')
+    lock_path = os.path.join(CACHE, 'extract%s.lock' % slot)
     with open(lock_path, 'w') as lf:
         fcntl.flock(lf, fcntl.LOCK_EX)
         try:
@@ -124,13 +125,13 @@ def ensure_facts(cfgs, repo=None, log=None):
                 if os.path.exists(done):
                     log.append({'cfg': cfg, 'cached': True})
                     continue
-                extract(cfg, repo, base, os.path.join(CACHE, 'target', cfg), log)
+                extract(cfg, repo, base, os.path.join(CACHE, 'target' + slot, cfg), log)
                 with open(done, 'w') as f:
                     f.write(str(time.time()))
             # keep the cache small: drop fact dirs other than the newest 6
             root = os.path.join(CACHE, 'facts')
             ds = sorted((os.path.getmtime(os.path.join(root, d)), d) for d in os.listdir(root))
-            for _, d in ds[:-6]:
+            for _, d in ds[:-24]:
                 if d != h:
                     shutil.rmtree(os.path.join(root, d), ignore_errors=True)
         finally:
